@@ -121,23 +121,35 @@ InlineDecls(n, doc) ==
 Effective(decls) ==
   LET h0 == \E i \in 1..Len(decls) : decls[i].prop = "height" /\ decls[i].val = 0
       oh == \E i \in 1..Len(decls) : decls[i].prop = "overflow" /\ decls[i].val = "hidden"
-      kept == SelectSeq(decls, LAMBDA d : d.prop \in {"color", "bg", "ws"} \/ (d.prop = "display" /\ d.val = "none"))
+      kept == SelectSeq(decls, LAMBDA d : d.prop \in {"color", "bg", "ws", "content"} \/ (d.prop = "display" /\ d.val = "none"))
   IN kept \o (IF h0 /\ oh THEN << [prop |-> "display", val |-> "none", imp |-> FALSE] >> ELSE <<>>)
-\* all declarations of property `prop` that apply to the element, in the order the code visits them
-Applicable(dom, p, css, inl, prop) ==
+\* the pseudo-element of a selector ("" | "before" | "after"; carried by its last compound)
+PeOf(sel) == IF sel # <<>> /\ "pe" \in DOMAIN sel[Len(sel)] THEN sel[Len(sel)].pe ELSE ""
+\* the agent rules that do_decorate() installs: em / dt / strong / code ::before and ::after
+DecoElem(nm) == nm \in {"em", "dt", "strong", "code"}
+DecoText(nm) == CASE nm \in {"em", "dt"} -> << <<42, 1>> >> [] nm = "strong" -> << <<42, 1>>, <<42, 1>> >> [] OTHER -> << <<96, 1>> >>
+\* all declarations of property `prop` for the element itself (pe = "") or for one of its pseudo-elements
+\* that apply, in the order the code visits them
+ApplicablePe(dom, p, css, inl, prop, pe) ==
   LET fromSheet(sheet, origin) ==
         Concat([r \in 1..Len(sheet) |->
           LET eff == Effective(sheet[r].decls) IN
           IF eff = <<>> THEN <<>>
           ELSE Concat([s \in 1..Len(sheet[r].sels) |->
-                 IF RefMatch(dom, sheet[r].sels[s], p)
+                 IF PeOf(sheet[r].sels[s]) = pe /\ RefMatch(dom, sheet[r].sels[s], p)
                  THEN LET ds == SelectSeq(eff, LAMBDA d : d.prop = prop) IN
                       [i \in 1..Len(ds) |-> [val |-> ds[i].val, imp |-> ds[i].imp, origin |-> origin, spec |-> SpecOf(sheet[r].sels[s])]]
                  ELSE <<>>])])
-      inlds == SelectSeq(Effective(inl), LAMBDA d : d.prop = prop)
-  IN fromSheet(css.agent, 1) \o fromSheet(css.user, 2) \o fromSheet(css.author, 3)
+      inlds == IF pe = "" THEN SelectSeq(Effective(inl), LAMBDA d : d.prop = prop) ELSE <<>>
+      n == NodeAt(dom, p)
+      deco == IF pe # "" /\ prop = "content" /\ "decorate" \in DOMAIN css /\ css.decorate /\ n.k = "e" /\ n.h /\ DecoElem(n.n)
+              THEN << [val |-> DecoText(n.n), imp |-> FALSE, origin |-> 1, spec |-> <<0, 0, 0, 1>>] >> ELSE <<>>
+  IN deco \o fromSheet(css.agent, 1) \o fromSheet(css.user, 2) \o fromSheet(css.author, 3)
      \o [i \in 1..Len(inlds) |-> [val |-> inlds[i].val, imp |-> inlds[i].imp, origin |-> 3, spec |-> InlineSpec]]
+Applicable(dom, p, css, inl, prop) == ApplicablePe(dom, p, css, inl, prop, "")
 Computed(dom, p, css, inl, prop) == RefCascade(Applicable(dom, p, css, inl, prop))
+\* the text of ::before / ::after (cells; <<>> if none)
+ContentOf(dom, p, css, pe) == LET w == RefCascade(ApplicablePe(dom, p, css, <<>>, "content", pe)) IN IF w.has THEN w.val ELSE <<>>
 ComputedOp(dom, p, css, inl, prop) == FoldLeft(MaybeUpdate, NoVal, Applicable(dom, p, css, inl, prop))
 
 \* the style record the renderer reads
@@ -149,7 +161,8 @@ StyOf2(dom, p, css, inl) ==
   [pre |-> FALSE, ws |-> IF ws.has THEN ws.val ELSE "",
    fg |-> IF fg.has THEN <<"Fg", fg.val[1], fg.val[2], fg.val[3]>> ELSE <<>>,
    bg |-> IF bg.has THEN <<"Bg", bg.val[1], bg.val[2], bg.val[3]>> ELSE <<>>,
-   none |-> di.has /\ di.val = "none"]
+   none |-> di.has /\ di.val = "none",
+   cset |-> TRUE, cb |-> ContentOf(dom, p, css, "before"), ca |-> ContentOf(dom, p, css, "after")]
 \* annotate every element of the document with its computed style (css.inline: path -> decls)
 RECURSIVE StyleSeq(_, _, _, _)
 StyleSeq(dom, ns, prefix, css) ==
